@@ -23,6 +23,12 @@ pub enum CfgError {
     /// This error occurs when a return statement is used but can be reached by
     /// no labels.
     NoLabelForReturn(ParserNode),
+    /// This error occurs when a jump or branch names a label that no
+    /// instruction follows.
+    LabelWithoutInstruction(LabelStringToken),
+    /// This error occurs when a called function (given by its first
+    /// instruction) never reaches a return.
+    FunctionWithoutReturn(ParserNode),
     /// Unexpected error
     UnexpectedError,
     /// Assertion error
@@ -62,6 +68,12 @@ impl Display for CfgError {
             CfgError::NoLabelForReturn(_) => {
                 write!(f, "No label for return")
             }
+            CfgError::LabelWithoutInstruction(label) => {
+                write!(f, "Label without instruction: {label}")
+            }
+            CfgError::FunctionWithoutReturn(_) => {
+                write!(f, "Function without return")
+            }
             CfgError::UnexpectedError => write!(f, "Unexpected error"),
             CfgError::AssertionError => write!(f, "Assertion error"),
         }
@@ -75,6 +87,8 @@ impl From<&CfgError> for SeverityLevel {
             | CfgError::DuplicateLabel(_)
             | CfgError::MultipleLabelsForReturn(_, _)
             | CfgError::NoLabelForReturn(_)
+            | CfgError::LabelWithoutInstruction(_)
+            | CfgError::FunctionWithoutReturn(_)
             | CfgError::UnexpectedError
             | CfgError::AssertionError => SeverityLevel::Error,
         }
@@ -90,11 +104,13 @@ impl DiagnosticLocation for CfgError {
             }
         }
         match self {
-            CfgError::MultipleLabelsForReturn(node, _) | CfgError::NoLabelForReturn(node) => {
-                node.file()
-            }
+            CfgError::MultipleLabelsForReturn(node, _)
+            | CfgError::NoLabelForReturn(node)
+            | CfgError::FunctionWithoutReturn(node) => node.file(),
             CfgError::LabelsNotDefined(labels) => labels.iter().next().unwrap().file(),
-            CfgError::DuplicateLabel(label) => label.file(),
+            CfgError::DuplicateLabel(label) | CfgError::LabelWithoutInstruction(label) => {
+                label.file()
+            }
             CfgError::UnexpectedError | CfgError::AssertionError => uuid::Uuid::nil(),
         }
     }
@@ -107,11 +123,13 @@ impl DiagnosticLocation for CfgError {
             }
         }
         match self {
-            CfgError::MultipleLabelsForReturn(node, _) | CfgError::NoLabelForReturn(node) => {
-                node.range()
-            }
+            CfgError::MultipleLabelsForReturn(node, _)
+            | CfgError::NoLabelForReturn(node)
+            | CfgError::FunctionWithoutReturn(node) => node.range(),
             CfgError::LabelsNotDefined(labels) => labels.iter().next().unwrap().range(),
-            CfgError::DuplicateLabel(label) => label.range(),
+            CfgError::DuplicateLabel(label) | CfgError::LabelWithoutInstruction(label) => {
+                label.range()
+            }
             CfgError::UnexpectedError | CfgError::AssertionError => crate::parser::Range::default(),
         }
     }
@@ -124,11 +142,13 @@ impl DiagnosticLocation for CfgError {
             }
         }
         match self {
-            CfgError::MultipleLabelsForReturn(node, _) | CfgError::NoLabelForReturn(node) => {
-                node.raw_text()
-            }
+            CfgError::MultipleLabelsForReturn(node, _)
+            | CfgError::NoLabelForReturn(node)
+            | CfgError::FunctionWithoutReturn(node) => node.raw_text(),
             CfgError::LabelsNotDefined(labels) => labels.iter().next().unwrap().raw_text(),
-            CfgError::DuplicateLabel(label) => label.raw_text(),
+            CfgError::DuplicateLabel(label) | CfgError::LabelWithoutInstruction(label) => {
+                label.raw_text()
+            }
             CfgError::UnexpectedError | CfgError::AssertionError => String::new(),
         }
     }
@@ -176,6 +196,13 @@ impl DiagnosticMessage for CfgError {
                 A label is considered a function if it has been called by a [jal] instruction. This code might also be\
                 missing from your file or imports.
                 ".to_string(),
+            CfgError::LabelWithoutInstruction(label) => format!(
+                "The label {label} is the target of a jump or branch, but no instruction follows it. \
+                A jump target must mark an instruction."
+            ),
+            CfgError::FunctionWithoutReturn(_) => "This code is called as a function, but no path through it \
+                reaches a return. Functions that never return (an endless loop, or leaving the program from inside) \
+                cannot be analyzed.".to_string(),
             CfgError::UnexpectedError => "An unexpected error occurred. Please file a bug.".to_string(),
             CfgError::AssertionError => "An unexpected assertion error occurred. Please file a bug.".to_string(),
         }
